@@ -620,11 +620,11 @@ def warm_digest(spec):
         # ... and queries whose wall clock in another zone reads 14:30 / 21:00 while the instant is an hour (Berlin) or nine
         # hours (Tokyo) earlier: a memo keyed on the wall clock would hand those answers to the backtest
         for a in syms:
-            for d in range(c["start"] // 1440 - 1, c["end"] // 1440 + 2):
+            for day in range(c["start"] // 1440 - 1, c["end"] // 1440 + 2):
                 for m, zone in ((870 - 60, "Europe/Berlin"), (1260 - 60, "Europe/Berlin"), (870 - 540, "Asia/Tokyo"), (1260 - 540, "Asia/Tokyo")):
                     try:
-                        ds.get_bid(ts(d * 1440 + m).tz_convert(zone), "EQ:" + a)
-                        ds.get_ask(ts(d * 1440 + m).tz_convert(zone), "EQ:" + a)
+                        ds.get_bid(ts(day * 1440 + m).tz_convert(zone), "EQ:" + a)
+                        ds.get_ask(ts(day * 1440 + m).tz_convert(zone), "EQ:" + a)
                     except Exception:
                         pass
         # one data HANDLER object for both sessions as well, after it has answered for instants before the assets' first bars
